@@ -544,7 +544,7 @@ def zoomImageParams3 (im : Img) (zz zy zx offz offy offx : Rat) (nz ny nx : Int)
     input plane `zmin + k`), and plane `k` of the result is the zoomed input plane `zmin + k`.  The source at the pinned revision stores
     the zoomed input plane `p` with `new_image.set_plane(…, p)`, i.e. under the *input's* plane number: the same thing when `zmin = 0`,
     an access outside the new image (undefined behaviour, not modelled) otherwise; the harness runs that call in a child process and its
-    oracle reports it (repair: build/fixes/C15-3.diff).  The early return ignores the y size (as the source does). -/
+    oracle reports it (repair: docs/fixes/C15-3.diff).  The early return ignores the y size (as the source does). -/
 def zoomImageParams2 (im : Img) (zoom xoff yoff : Rat) (newSize : Int) (opt : ZoomOpt) : Img :=
   if zoom == 1 ∧ xoff == 0 ∧ yoff == 0 ∧ newSize == im.g.nx then im
   else
@@ -592,7 +592,7 @@ def zoomViewgramOffset (xoff yoff c s inBin : Rat) : Rat := fl32 ((xoff * c + yo
     the new data".  In the identity case (same range, zoom 1, no offsets) the source at the pinned revision `return`s *without*
     copying `in_view` into `out_view` (zoom.cxx:196-199; `zoom_image` does `image_out = image_in` in the same place): the model states
     the documented behaviour (the copy), which is what `overlap_interpolate` itself does for the identity request; the harness oracle
-    reports the difference on the implementation (repair: build/fixes/C15-1.diff). -/
+    reports the difference on the implementation (repair: docs/fixes/C15-1.diff). -/
 def zoomViewgram (outLo : Int) (outN : Nat) (inLo : Int) (rows : List (List Rat)) (inBin outBin xoff yoff c s : Rat) :
     List (List Rat) :=
   let zoom := fl32 (inBin / outBin)
@@ -659,7 +659,7 @@ def inverseSsrbWeights (ms : List Rat) (outM : Rat) (tol : Rat) : Option (List (
 /-- the compatibility guards of `inverse_SSRB` (inverse_SSRB.cxx:40-51): `false` = `Succeeded::no`.  The source at the pinned revision
     compares `get_min_view_num()` (and `get_min_tangential_pos_num()`) twice, so that the maxima are never looked at: data with another
     number of views / tangential positions but the same first index are accepted and views of other azimuthal angles are added together.
-    The model states the intended guard (first and last view, first and last tangential position agree; repair: build/fixes/C15-2.diff). -/
+    The model states the intended guard (first and last view, first and last tangential position agree; repair: docs/fixes/C15-2.diff). -/
 def inverseSsrbCompatible (minV3 maxV3 minT3 maxT3 minV4 maxV4 minT4 maxT4 : Int) : Bool :=
   minV3 == minV4 && maxV3 == maxV4 && minT3 == minT4 && maxT3 == maxT4
 
@@ -733,7 +733,7 @@ def extendSegment (seg : Arr3) (na nv nt : Nat) (ve ae te : Int) (mode : Nat) : 
         -- the pinned revision takes the EXTENDED range (`min_dim[3]`, `max_dim[3]`) here, whose added positions are still empty (they are
         -- filled by the last loop): the same result for a symmetric tangential range or without tangential extension, zeros in the added
         -- views for data with an even number of tangential positions (`-n/2 … n/2-1`) and `tangential_extension > 0`; the harness reports
-        -- that class on the implementation (repair: build/fixes/C15-5.diff) and compares the other cases with this model.
+        -- that class on the implementation (repair: docs/fixes/C15-5.diff) and compares the other cases with this model.
         let tmin := seg.t0
         let tmax := seg.t0 + nt - 1
         let sym := min (if tmin < 0 then -tmin else tmin) tmax
